@@ -65,12 +65,13 @@ def obj(n, q, ty, default=None, noreset=False):
     return {"n": n, "q": q, "ty": ty, "hasdefault": 0 if default is None else 1,
             "default": 0 if default is None else default, "noreset": 1 if noreset else 0}
 
-def seq_ctx(name, body, clk="clk", reset=None, coroutine=False):
+def seq_ctx(name, body, clk="clk", reset=None, coroutine=False, step=None, edge="rising"):
     return {"kind": "seq", "name": name, "clk": clk, "reset": reset or {"k": "none"},
-            "coroutine": 1 if coroutine else 0, "body": body}
+            "coroutine": 1 if coroutine else 0, "body": body, "step": step or {"k": "none"}, "edge": edge}
 
 def conc_ctx(name, body):
-    return {"kind": "conc", "name": name, "clk": "", "reset": {"k": "none"}, "coroutine": 0, "body": body}
+    return {"kind": "conc", "name": name, "clk": "", "reset": {"k": "none"}, "coroutine": 0, "body": body,
+            "step": {"k": "none"}, "edge": ""}
 
 def reset(portname, active_low=False, is_async=False):
     return {"k": "reset", "port": portname, "active_low": 1 if active_low else 0, "async": 1 if is_async else 0}
@@ -91,6 +92,9 @@ def idx(e, i): return {"k": "idx", "e": e, "i": i}
 def dynidx(e, i): return {"k": "dynidx", "e": e, "i": i}
 def view(e, to): return {"k": "view", "e": e, "to": to}
 def resize(e, w): return {"k": "resize", "e": e, "w": w}
+NULL = {"k": "null"}
+FULL = {"k": "full"}
+def strlit(s): return {"k": "strlit", "s": s, "b": [int(c) for c in reversed(s)]}
 TRUE = {"k": "true"}
 FALSE = {"k": "false"}
 
@@ -99,6 +103,7 @@ def target(o, path=None): return {"obj": o, "path": path or []}
 def p_slice(hi, lo): return {"k": "slice", "hi": hi, "lo": lo}
 def p_idx(i): return {"k": "idx", "i": i}
 def p_dynidx(e): return {"k": "dynidx", "e": e}
+def p_view(to): return {"k": "view", "to": to}
 def assign(mode, t, e, form="op"): return {"k": "assign", "mode": mode, "t": t if isinstance(t, dict) else target(t), "e": e, "form": form}
 def if_(c, th, el=None): return {"k": "if", "c": c, "th": th, "el": el or []}
 def await_(c): return {"k": "await", "c": c}
@@ -106,6 +111,7 @@ def while_(c, body): return {"k": "while", "c": c, "body": body}
 BREAK = {"k": "break"}
 CONTINUE = {"k": "continue"}
 def bind(n, e): return {"k": "bind", "n": n, "e": e}
+def comment(text): return {"k": "comment", "text": text}
 
 # ---------------------------------------------------------------- pretty printer
 _BINOP = {"add": "+", "sub": "-", "mul": "*", "mod": "%", "and": "&", "or": "|", "xor": "^",
@@ -130,6 +136,12 @@ class Printer:
             return lit_py(e["ty"], e["v"])
         if k == "int":
             return f"({e['v']})" if e["v"] < 0 else str(e["v"])
+        if k == "null":
+            return "Null"
+        if k == "full":
+            return "Full"
+        if k == "strlit":
+            return f'"{e["s"]}"'
         if k == "true":
             return "True"
         if k == "false":
@@ -170,6 +182,8 @@ class Printer:
                 s += f"[{p['hi']}:{p['lo']}]"
             elif p["k"] == "idx":
                 s += f"[{p['i']}]"
+            elif p["k"] == "view":
+                s += "." + {"u": "unsigned", "s": "signed", "bv": "bitvector"}[p["to"]]
             else:
                 s += f"[{self.expr(p['e'])}]"
         return s
@@ -194,6 +208,8 @@ class Printer:
                     out.append(f"{pad}{t} {op} {e}")
                 else:
                     out.append(f"{pad}{t}.{s['mode']} = {e}")
+            elif k == "comment":
+                out.append(f'{pad}std.comment("{s["text"]}")')
             elif k == "bind":
                 out.append(f"{pad}{s['n']} = {self.expr(s['e'])}")
             elif k == "if":
@@ -246,7 +262,10 @@ class Printer:
         for c in ent["ctxs"]:
             out.append("")
             if c["kind"] == "seq":
-                a = [f"std.Clock(self.{c['clk']})"]
+                if c.get("edge", "rising") == "rising":
+                    a = [f"std.Clock(self.{c['clk']})"]
+                else:
+                    a = [f"std.Clock(self.{c['clk']}, active_edge=std.Clock.Edge.{c['edge'].upper()})"]
                 r = c["reset"]
                 if r["k"] != "none":
                     extra = ""
@@ -255,13 +274,31 @@ class Printer:
                     if r["async"]:
                         extra += ", is_async=True"
                     a.append(f"std.Reset(self.{r['port']}{extra})")
+                if c.get("step", {"k": "none"})["k"] != "none":
+                    a.append(f"step_cond=lambda: {self.expr(c['step'])}")
                 out.append(f"        @std.sequential({', '.join(a)})")
                 out.append(f"        {'async ' if c['coroutine'] else ''}def {c['name']}():")
             else:
                 out.append("        @std.concurrent")
                 out.append(f"        def {c['name']}():")
+            nl = sorted(self.augmented(c["body"]))
+            if nl:
+                out.append("            nonlocal " + ", ".join(nl))
             self.stmts(c["body"], 3, out)
         return "\n".join(out) + "\n"
+
+    def augmented(self, ss, acc=None):
+        """local objects that are the target of an augmented assignment (python needs `nonlocal`)"""
+        acc = set() if acc is None else acc
+        for s in ss:
+            if s["k"] == "assign" and s.get("form", "op") == "op" and not s["t"]["path"] and s["t"]["obj"] not in self.portnames:
+                acc.add(s["t"]["obj"])
+            elif s["k"] == "if":
+                self.augmented(s["th"], acc)
+                self.augmented(s["el"], acc)
+            elif s["k"] == "while":
+                self.augmented(s["body"], acc)
+        return acc
 
 
 HEADER = """from __future__ import annotations
